@@ -215,6 +215,15 @@ func check(repo, verif, id, tier string) int {
 			fmt.Printf("  signature: %s\n  detail: %s\n", v.Verdict.Signature, v.Verdict.Detail)
 			code = 1
 		}
+		for _, inc := range rep.Incomplete {
+			fmt.Println(inc)
+		}
+		if len(rep.Incomplete) > 0 && code == 0 {
+			// nothing replayable to report, but the real runtime disagreed with the
+			// simulator: the check cannot vouch for the property on this tree
+			fmt.Println("crdsim: the real runtime showed behaviour the simulator did not reproduce; no verdict (exit 2)")
+			code = 2
+		}
 		wall := time.Since(t0).Seconds()
 		if err := writeEvidence(verif, p, e, st, tier, seed, wall, rep, fid, replayPaths); err != nil {
 			die(err)
